@@ -80,6 +80,32 @@ fn other_same_kind_key(kind: Kind) -> RecordKey {
     }
 }
 
+/// What is already held when the case starts.
+#[derive(Clone, Copy, Debug, PartialEq)]
+enum Held {
+    Nothing,
+    /// an (older) version of the honest object, under the key the content determines
+    DerivedKey,
+    /// the legitimate object of the *presented* foreign key
+    PresentedKey,
+}
+
+/// The honest record living under the foreign key a case presents.
+fn legit_record_under(kind: Kind, choice: KeyChoice) -> Option<Record> {
+    match (choice, kind) {
+        (KeyChoice::SameKindOther, Kind::Chunk) => Some(rec::chunk_record(&rec::chunk(b"another chunk"))),
+        (KeyChoice::SameKindOther, Kind::Scratchpad) => Some(rec::pad_record(&rec::pad(9, 1, b"x", 9))),
+        (KeyChoice::SameKindOther, Kind::Transaction) => {
+            let t = rec::tx(9, 1, 9);
+            Some(rec::txs_record(rec::tx_key(&t), &[t]))
+        }
+        (KeyChoice::SameKindOther, Kind::Register) => Some(rec::reg_record(&rec::reg_fixture(9, b"other").base)),
+        (KeyChoice::OtherKind, Kind::Chunk) => Some(rec::pad_record(&rec::pad(5, 2, b"pad v2", 5))),
+        (KeyChoice::OtherKind, _) => Some(rec::chunk_record(&rec::chunk(b"c03 chunk payload"))),
+        _ => None,
+    }
+}
+
 fn other_kind_key(kind: Kind) -> RecordKey {
     match kind {
         Kind::Chunk => rec::pad_key(&rec::pad(5, 2, b"pad v2", 5)),
@@ -111,7 +137,8 @@ fn check_all_stored_keys_derived(run: &Run, rig: &mut NodeRig, desc: &serde_json
     }
 }
 
-fn run_case(run: &Run, stub: &Arc<EvmStub>, kind: Kind, path: Path, choice: KeyChoice, held: bool) {
+fn run_case(run: &Run, stub: &Arc<EvmStub>, kind: Kind, path: Path, choice: KeyChoice, held_what: Held) {
+    let held = held_what == Held::DerivedKey;
     let up = upload_for(kind);
     if path == Path::UnpaidUpdate && !matches!(kind, Kind::Scratchpad | Kind::Register) {
         return;
@@ -124,6 +151,16 @@ fn run_case(run: &Run, stub: &Arc<EvmStub>, kind: Kind, path: Path, choice: KeyC
         let (n, r) = (rig.node.clone(), up.prior_other.clone().unwrap_or(up.prior_same.clone()));
         let _ = rig.run("prior", async move { n.store_replicated_in_record(r).await });
     }
+    if held_what == Held::PresentedKey {
+        let Some(r) = legit_record_under(kind, choice) else {
+            return;
+        };
+        let (n, k) = (rig.node.clone(), r.key.clone());
+        let _ = rig.run("prior-foreign", async move { n.store_replicated_in_record(r).await });
+        if rig.stored(&k).is_none() {
+            run.machinery_error(&format!("the legitimate holder of the foreign key could not be stored ({kind:?}, {choice:?})"));
+        }
+    }
     let key = match choice {
         KeyChoice::Derived => up.key.clone(),
         KeyChoice::SameKindOther => other_same_kind_key(kind),
@@ -132,7 +169,7 @@ fn run_case(run: &Run, stub: &Arc<EvmStub>, kind: Kind, path: Path, choice: KeyC
     };
     let watch = vec![up.key.clone(), key.clone(), other_same_kind_key(kind), other_kind_key(kind)];
     let before = snapshot(&mut rig, &watch);
-    let desc = json!({"kind": format!("{kind:?}"), "path": format!("{path:?}"), "key": format!("{choice:?}"), "derived_key_already_held": held});
+    let desc = json!({"kind": format!("{kind:?}"), "path": format!("{path:?}"), "key": format!("{choice:?}"), "already_held": format!("{held_what:?}")});
     run.case(desc.to_string().as_bytes(), choice != KeyChoice::Derived);
     // the attacker pays for the key it presents
     let now = SystemTime::now() - Duration::from_secs(30);
@@ -299,7 +336,7 @@ pub fn main(tier: Option<&str>) {
     let run = Run::new("C04", "model_checking", tier);
     run.rule(
         "kind 4 x path {paid put, unpaid update, replication, kad inbound} x key {derived, another object of the same kind, an object of \
-         another kind, random} x {empty store, derived key already held}: each on a fresh real Node + SwarmDriver under the FIFO \
+         another kind, random} x {empty store, derived key already held, the presented foreign key already held by its legitimate record}: each on a fresh real Node + SwarmDriver under the FIFO \
          schedule, the presented key paid for by an otherwise valid proof; after each case every record the store lists is re-derived \
          from its bytes. Plus 8 malformed / oversized inbound records. Non-trivial = the key is not the derived one.",
     );
@@ -308,7 +345,10 @@ pub fn main(tier: Option<&str>) {
     for kind in KINDS {
         for path in [Path::PaidPut, Path::UnpaidUpdate, Path::Replication, Path::KadInbound] {
             for choice in [KeyChoice::Derived, KeyChoice::SameKindOther, KeyChoice::OtherKind, KeyChoice::Random] {
-                for held in [false, true] {
+                for held in [Held::Nothing, Held::DerivedKey, Held::PresentedKey] {
+                    if held == Held::PresentedKey && legit_record_under(kind, choice).is_none() {
+                        continue;
+                    }
                     cases.push((kind, path, choice, held));
                 }
             }
@@ -336,6 +376,6 @@ pub fn main(tier: Option<&str>) {
     mixed_transaction_vectors(&run, &stub);
     run.count("states", total as u64);
     run.count("transitions", total as u64);
-    run.sample(json!({"kind":"Register","path":"Replication","key":"SameKindOther","derived_key_already_held":true}));
+    run.sample(json!({"kind":"Register","path":"UnpaidUpdate","key":"SameKindOther","already_held":"PresentedKey"}));
     run.finish();
 }
